@@ -211,7 +211,7 @@ func c30(r *Run) {
 				}
 			}
 			r.check(okCl, "C30.R3", "SimulateActions:reports-copy-of-recorded-keys", r.at(w, cl), "", "the reported key set is not a copy of the recording scope (a shared map is emptied by the per-action clear)")
-			st := findEffects(sim, "store alloc(actionResult).StateKeys = maps.Clone(*)")
+			st := findEffects(sim, "store alloc(*).StateKeys = maps.Clone(*)")
 			r.check(len(st) == 1, "C30.R3", "SimulateActions:copy-is-reported", r.at(w, cl), "", "the copy of the recorded keys is not what the result reports")
 			r.successGuards(w, "C30.R3", "SimulateActions:keys-copied-after-execution", ec, cl)
 			// between Execute and the copy the scope is not cleared; every iteration clears after the copy
@@ -238,17 +238,51 @@ func c30(r *Run) {
 
 	has := r.fn(w, "C30.R4", "("+pkgState+".SimulatedKeys).Has")
 	if has != nil {
-		r.requireEffect(w, "C30.R4", "SimulatedKeys.Has:records-requested-permission", has, "call (state.Keys).Add(p0, string(p1), p2)")
 		// grants exactly the accesses it recorded: what is reported is then sufficient, and a key no transaction
 		// could declare is refused as the transaction's scope would refuse it
-		outs := returnOutcomes(has)
-		r.check(len(outs) == 1 && len(outs[0].Vals) == 1 && term(outs[0].Vals[0]) == "(state.Keys).Add(p0, string(p1), p2)", "C30.R4", "SimulatedKeys.Has:grants-iff-recorded", w.rel(has.Pos()), "", "the recording scope does not grant exactly the accesses it records (granting an access it cannot record makes the reported key set insufficient; refusing a recorded one fails a valid simulation)")
+		rec, grants := simulatedHasShape(has)
+		r.check(rec, "C30.R4", "SimulatedKeys.Has:records-requested-permission", w.rel(has.Pos()), "", "the recording scope does not record (union) the requested permission for the key")
+		r.check(grants, "C30.R4", "SimulatedKeys.Has:grants-iff-recorded", w.rel(has.Pos()), "", "the recording scope does not grant exactly the accesses it records (granting an access it cannot record makes the reported key set insufficient; refusing a recorded one fails a valid simulation)")
 	}
 	add := r.fn(w, "C30.R4", "("+pkgState+".Keys).Add")
 	if add != nil {
 		es := findEffects(add, "mapupdate p0[p1] = (p0[p1] | p2)")
 		r.check(len(es) == 1 && len(es[0].Conds()) == 1 && es[0].Conds()[0] == "keys.Valid(p1)", "C30.R4", "Keys.Add:union", w.rel(add.Pos()), "", fmt.Sprintf("Keys.Add does not union the permission into the entry for every valid key (%d)", len(es)))
 	}
+}
+
+// simulatedHasShape decides the two clauses of SimulatedKeys.Has: recorded = the requested permission is unioned into
+// the entry of every valid key; grants = the result is true exactly when the key was recorded. Accepted forms:
+// `return Keys(d).Add(string(key), perm)` and the same thing written out (Valid test, |= on the map, true / false).
+func simulatedHasShape(has *ssa.Function) (recorded, grants bool) {
+	outs := returnOutcomes(has)
+	if len(outs) == 1 && len(outs[0].Vals) == 1 && term(outs[0].Vals[0]) == "(state.Keys).Add(p0, string(p1), p2)" {
+		return true, true
+	}
+	mu := findEffects(has, "mapupdate p0[string(p1)] = (p0[string(p1)] | p2)")
+	if len(mu) != 1 || !hasStr(mu[0].Conds(), "keys.Valid(string(p1))") || len(mu[0].Conds()) != 1 {
+		return false, false
+	}
+	recorded, grants = true, len(outs) > 0
+	for _, o := range outs {
+		if len(o.Vals) != 1 {
+			return recorded, false
+		}
+		switch term(o.Vals[0]) {
+		case "true":
+			// only after the update
+			if !hasStr(o.Conds, "keys.Valid(string(p1))") || !dominatesI(mu[0].Ins, o.Ret) {
+				grants = false
+			}
+		case "false":
+			if !hasStr(o.Conds, "!keys.Valid(string(p1))") {
+				grants = false
+			}
+		default:
+			grants = false
+		}
+	}
+	return recorded, grants
 }
 
 // isLoopCond: the condition only says that a range / index loop is (or has finished) iterating.
